@@ -4,7 +4,8 @@ import MakoModel.Encoding.NonExamples
 # C18 – template text round-trips through input and output encodings
 
 Every theorem is about the model `MakoModel/Encoding/Model.lean` (a transcription of `Lexer.decode_raw_stream`,
-the skip of the coding comment in `Lexer.parse`, `_compile_module_file`, the magic comment of `codegen`,
+the preprocessor loop and the skip of the coding comment in `Lexer.parse`, `_compile_module_file`, the magic comment
+and the `from __future__ import` line of `codegen.write_toplevel`,
 `util.parse_encoding/read_python_file`, `ModuleInfo.source`, `runtime._render`, `FastEncodingBuffer.getvalue`)
 and holds for **all** byte strings, texts, `input_encoding` values and **all codecs** satisfying the stated laws
 (`AsciiCompatible`, `AsciiPrefix`, `RoundTrip`/`RoundTripOn`).  UTF-8, latin-1 and ascii are concrete codecs that
@@ -14,6 +15,24 @@ The one defect of the implementation that remains (F-C18-2, recorded in `known_f
 with its guard (`HeaderOk`) and a `…_counterexample` theorem; the full-strength statement is quoted in an `OPEN` comment.
 F-C18-1, F-C18-3 and F-C18-4 were repaired in /repo; their theorems are stated at full strength and rest on the named
 obligations `bom_compared_by_codec`, `source_strips_bom`, `names_written_ascii` about the regenerated constants.
+
+Contents (30 theorems).
+1. encoding decision – `encoding_precedence`, `encoding_precedence_str`, `comment_beats_input_encoding`,
+   `input_encoding_beats_default`, `default_is_utf8`, `bom_means_utf8`;
+2. BOM vs comment – `bom_conflict_raises`, `bom_conflict_iff`, `bom_agreeing_comment`,
+   `bom_redundant_with_agreeing_comment` (registry coherence `Env.Coherent`);
+3. errors – `undecodable_raises_compile_exception`, `decode_errors`, `decode_ok_iff`;
+4. bytes compile as their decoded text – `bytes_compile_as_text`, `bytes_compile_as_text_ascii_prefix`,
+   `bom_bytes_compile_as_text`; with preprocessors – `preprocessors_get_decoded_text`,
+   `bytes_compile_as_text_preprocessed` (obligation `decode_precedes_preprocessors` on the regenerated statement order
+   of `Lexer.parse`); the exact disagreement condition – `bytes_vs_text_disagree_iff`, `disagree_implies_not_headerOk`,
+   `bytes_compile_as_text_counterexample` (F-C18-2);
+4b. which codecs are spoken about – `utf16be_is_a_non_example`, `ascii_prefix_only_codecs` (the shift_jis situation);
+5. module file – `module_file_written`, `module_file_starts_with_magic_comment` (obligation `magic_comment_first` on
+   the regenerated statement order of `write_toplevel`: the coding comment is line 1 whatever `future_imports`),
+   `module_file_roundtrip`;
+6. `Template.source` – `source_is_decoded_text`;
+7. output – `render_unicode_ignores_output_encoding`, `render_without_output_encoding`, `render_encoding`.
 -/
 namespace MakoModel.C18
 open MakoModel.Encoding
